@@ -20,12 +20,17 @@ import (
 
 // prov is a value with provenance. Two payload types (so that type-only
 // matching has something to tell apart) and an interface both implement.
-type provA struct{ Origin string }
-type provB struct{ Origin string }
-type provI interface{ origin() string }
+type provA struct{ Origin, Via string }
+type provB struct{ Origin, Via string }
+type provI interface {
+	origin() string
+	via() string
+}
 
 func (p provA) origin() string  { return p.Origin }
 func (p provB) origin() string  { return p.Origin }
+func (p provA) via() string     { return p.Via }
+func (p provB) via() string     { return p.Via }
 func (p *provB) String() string { return p.Origin }
 
 type label struct {
@@ -49,11 +54,11 @@ func (l label) rtype() reflect.Type {
 func (l label) value() interface{} {
 	switch l.typ {
 	case "A":
-		return provA{l.String()}
+		return provA{Origin: l.String()}
 	case "B":
-		return provB{l.String()}
+		return provB{Origin: l.String()}
 	}
-	return provA{l.String()} // an implementation, labelled by the interface label
+	return provA{Origin: l.String()} // an implementation, labelled by the interface label
 }
 
 func parseOrigin(s string) label {
@@ -100,6 +105,7 @@ type binding struct {
 	who string
 	dst label
 	src label
+	via string // "" for a supplied value, the producing converter otherwise
 }
 
 // mkFunc builds func(in struct) (out struct) that records what it received and
@@ -116,26 +122,26 @@ func mkFunc(who string, ins, outs []label, rec *[]binding) interface{} {
 	return reflect.MakeFunc(ft, func(args []reflect.Value) []reflect.Value {
 		for i, l := range ins {
 			v := args[0].Field(i + 1).Interface()
-			o := ""
+			o, via := "", ""
 			if p, ok := v.(provI); ok && p != nil {
-				o = p.origin()
+				o, via = p.origin(), p.via()
 			}
 			if o == "" {
-				*rec = append(*rec, binding{who, l, label{name: "?", typ: "fabricated"}})
+				*rec = append(*rec, binding{who, l, label{name: "?", typ: "fabricated"}, ""})
 				continue
 			}
-			*rec = append(*rec, binding{who, l, parseOrigin(o)})
+			*rec = append(*rec, binding{who, l, parseOrigin(o), via})
 		}
 		if ot == nil {
 			return nil
 		}
 		out := reflect.New(ot).Elem()
 		for i, l := range outs {
-			pl := l
-			if pl.typ == "I" {
-				out.Field(i + 1).Set(reflect.ValueOf(provA{l.String()}))
-			} else {
-				out.Field(i + 1).Set(reflect.ValueOf(pl.value()))
+			switch l.typ {
+			case "B":
+				out.Field(i + 1).Set(reflect.ValueOf(provB{Origin: l.String(), Via: who}))
+			default:
+				out.Field(i + 1).Set(reflect.ValueOf(provA{Origin: l.String(), Via: who}))
 			}
 		}
 		return []reflect.Value{out}
@@ -165,8 +171,12 @@ func (sc scenario) String() string {
 }
 
 func runScenario(sc scenario) (bad []string) {
-	var rec []binding
-	target := mkFunc("target", []label{sc.param}, nil, &rec)
+	bad, _, _ = runScenarioRec(sc, []label{sc.param})
+	return bad
+}
+
+func runScenarioRec(sc scenario, params []label) (bad []string, rec []binding, callErr error) {
+	target := mkFunc("target", params, nil, &rec)
 	opts := []Arg{Logger(hclog.NewNullLogger())}
 	for _, in := range sc.inputs {
 		opts = append(opts, inputArg(in))
@@ -176,7 +186,7 @@ func runScenario(sc scenario) (bad []string) {
 	}
 	f, err := NewFunc(target)
 	if err != nil {
-		return nil
+		return nil, nil, err
 	}
 	func() {
 		defer func() {
@@ -184,7 +194,8 @@ func runScenario(sc scenario) (bad []string) {
 				bad = append(bad, fmt.Sprintf("panic: %v", r))
 			}
 		}()
-		f.Call(opts...)
+		res := f.Call(opts...)
+		callErr = res.Err()
 	}()
 	for _, b := range rec {
 		if b.src.typ == "fabricated" {
@@ -195,7 +206,7 @@ func runScenario(sc scenario) (bad []string) {
 			bad = append(bad, fmt.Sprintf("%s parameter %v received the value supplied/produced as %v", b.who, b.dst, b.src))
 		}
 	}
-	return bad
+	return bad, rec, callErr
 }
 
 func labelsUniverse(thorough bool) []label {
@@ -287,4 +298,150 @@ func TestVerifLabels(t *testing.T) {
 		}
 	}
 	t.Logf("label scenarios run: %d, failing: %d", n, failures)
+}
+
+
+// TestVerifExact (C03): every target parameter has an exactly matching
+// supplied value; whatever else is supplied (other values of the same type,
+// converters that could produce the same labels, a same-named value of
+// another type with a converter from it), the call must succeed without
+// running a converter and bind the exact values. Each scenario is repeated
+// (map iteration order).
+func TestVerifExact(t *testing.T) {
+	thorough := os.Getenv("VERIF_TIER") == "thorough"
+	reps := 12
+	if thorough {
+		reps = 60
+	}
+	names := []string{"x", ""}
+	subs := []string{"", "a"}
+	var params []label
+	for _, n := range names {
+		for _, s := range subs {
+			params = append(params, label{n, "A", s})
+		}
+	}
+	// distractor inputs
+	// (a named value without subtype of the parameter's own name would REPLACE the exact one: options are last-wins)
+	distract := []label{{"y", "A", ""}, {"x", "A", "b"}, {"", "A", "b"}, {"y", "A", "a"}, {"x", "B", "c"}, {"y", "B", ""}}
+	type convSpec struct{ in, out []label }
+	mkConvs := func(p label) []convSpec {
+		return []convSpec{
+			{[]label{{"", "B", ""}}, []label{p}},                  // type-only converter producing the very label
+			{[]label{{p.name, "B", "s"}}, []label{p}},             // same-named value of another type (name affinity)
+			{[]label{{"", "B", ""}}, []label{{p.name, "A", "b"}}}, // produces another subtype
+			{nil, []label{p}},                                     // provider
+			{[]label{{p.name, "B", ""}}, []label{p}},              // takes the name without subtype; only the subtyped same-named B is supplied
+		}
+	}
+	n, failures := 0, 0
+	for _, p := range params {
+		for di := -1; di < len(distract); di++ {
+			for ci := -1; ci < 5; ci++ {
+				sc := scenario{param: p, inputs: []label{p}}
+				if di >= 0 {
+					sc.inputs = append(sc.inputs, distract[di])
+				}
+				if ci >= 0 {
+					c := mkConvs(p)[ci]
+					sc.convs = [][2][]label{{c.in, c.out}}
+					sc.inputs = append(sc.inputs, label{"", "B", ""})
+					if p.name != "" {
+						sc.inputs = append(sc.inputs, label{p.name, "B", "s"})
+					}
+				}
+				for r := 0; r < reps; r++ {
+					n++
+					bad, rec, err := runScenarioRec(sc, []label{p})
+					if err != nil {
+						bad = append(bad, "call failed: "+err.Error())
+					}
+					for _, b := range rec {
+						if b.who != "target" {
+							bad = append(bad, "converter "+b.who+" was executed")
+						} else if p.name != "" && (b.via != "" || b.src != p) {
+							bad = append(bad, fmt.Sprintf("parameter %v did not receive the exactly matching supplied value but %v (via %q)", p, b.src, b.via))
+						} else if p.name == "" && (b.via != "" || b.src.typ != p.typ) {
+							bad = append(bad, fmt.Sprintf("type-only parameter %v did not receive a supplied value of exactly its type but %v (via %q)", p, b.src, b.via))
+						}
+					}
+					if len(bad) > 0 {
+						failures++
+						if failures <= 300 {
+							t.Errorf("FAILING-INPUT exact %v (run %d): %s", sc, r, strings.Join(bad, "; "))
+						}
+						break
+					}
+				}
+			}
+		}
+	}
+	t.Logf("exact-match scenarios run: %d, failing scenarios: %d", n, failures)
+}
+
+// TestVerifAffinity (C07): name affinity. (a) parameter n:A must be converted
+// from a type-only converter B -> A; several named B values are supplied, one
+// of them named n: that one must be converted. (b) two converters could
+// produce n:A, one taking n:B by name, one type-only B: the named one runs.
+func TestVerifAffinity(t *testing.T) {
+	thorough := os.Getenv("VERIF_TIER") == "thorough"
+	reps := 15
+	if thorough {
+		reps = 80
+	}
+	n, failures := 0, 0
+	report := func(what string, sc scenario, r int, bad []string) {
+		failures++
+		if failures <= 10 {
+			t.Errorf("FAILING-INPUT affinity/%s %v (run %d): %s", what, sc, r, strings.Join(bad, "; "))
+		}
+	}
+	others := [][]string{{"y"}, {"y", "z"}, {"y", "z", "w"}}
+	for _, os_ := range others {
+		p := label{"x", "A", ""}
+		sc := scenario{param: p, inputs: []label{{"x", "B", ""}}, convs: [][2][]label{{{{"", "B", ""}}, {{"", "A", ""}}}}}
+		for _, o := range os_ {
+			sc.inputs = append(sc.inputs, label{o, "B", ""})
+		}
+		for r := 0; r < reps; r++ {
+			n++
+			bad, rec, err := runScenarioRec(sc, []label{p})
+			if err != nil {
+				bad = append(bad, "call failed: "+err.Error())
+			}
+			for _, b := range rec {
+				if b.who == "conv0" && b.src.name != "x" {
+					bad = append(bad, fmt.Sprintf("the converter's type-only input was fed by %v instead of the value named like the parameter", b.src))
+				}
+			}
+			if len(bad) > 0 {
+				report("several-inputs", sc, r, bad)
+				break
+			}
+		}
+	}
+	{
+		p := label{"x", "A", ""}
+		sc := scenario{param: p, inputs: []label{{"x", "B", ""}}, convs: [][2][]label{
+			{{{"", "B", ""}}, {{"", "A", ""}}},
+			{{{"x", "B", ""}}, {{"x", "A", ""}}},
+		}}
+		for r := 0; r < reps; r++ {
+			n++
+			bad, rec, err := runScenarioRec(sc, []label{p})
+			if err != nil {
+				bad = append(bad, "call failed: "+err.Error())
+			}
+			for _, b := range rec {
+				if b.who == "target" && b.via != "conv1" {
+					bad = append(bad, fmt.Sprintf("the parameter was produced via %q instead of the converter that takes the name", b.via))
+				}
+			}
+			if len(bad) > 0 {
+				report("named-converter", sc, r, bad)
+				break
+			}
+		}
+	}
+	t.Logf("affinity scenarios run: %d, failing scenarios: %d", n, failures)
 }
